@@ -26,14 +26,23 @@ def mk_select_case(data, i, lay, mode, et="i64", profile="debug", **kw):
                 buf=buf, mode=mode, **kw)
 
 
-def mk_many_case(data, idxs, lay, mode, et="i64", profile="debug", **kw):
+_IL = [0]
+
+
+def mk_many_case(data, idxs, lay, mode, et="i64", profile="debug", il=None, **kw):
+    """il: how the index array is presented to the routine - 0 owned Array1, 1 reversed view of reversed
+    storage, 2 every second element of padded storage, 3 reversed stepped view, 4 shared (ArcArray).
+    The LOGICAL index list is the same in every case; by default the kinds rotate."""
     s, o, t = lay
     L = lay1(len(data), s, o, t)
     buf = L.embed(list(data), lambda k: GUARD + k)
-    line = "%s | %s | %d %s | %d %s | %s" % (et, L.tokens(), len(buf), " ".join(map(str, buf)), len(idxs),
-                                            " ".join(map(str, idxs)), pivot_tokens(mode))
+    if il is None:
+        _IL[0] += 1
+        il = _IL[0] % 5
+    line = "%s | %s | %d %s | %d %s | %s %d" % (et, L.tokens(), len(buf), " ".join(map(str, buf)), len(idxs),
+                                               " ".join(map(str, idxs)), pivot_tokens(mode), il)
     return Case("select_many", " ".join(line.split()), profile, data=list(data), idxs=list(idxs), lay=L.view1(),
-                cells=L.cells(), buf=buf, mode=mode, **kw)
+                cells=L.cells(), buf=buf, mode=mode, il=il, **kw)
 
 
 def parse_log(toks):
@@ -262,7 +271,7 @@ class C02(Prop):
         return case.obs is not None and len(case.obs[3]) >= 1
 
     def key(self, case):
-        return (case.routine, tuple(case.data), case.__dict__.get("i"), tuple(case.__dict__.get("idxs", ())), case.lay,
+        return (case.routine, tuple(case.data), case.__dict__.get("i"), tuple(case.__dict__.get("idxs", ())), case.__dict__.get("il"), case.lay,
                 tuple(c for _, c in case.obs[3]) if case.obs else ())
 
     def coverage_extra(self, cases):
